@@ -20,7 +20,7 @@ ID = "C17"
 TECHNIQUE = 'runtime monitoring - garbage-collector oracle over dumps before/after each pass with an injected clock (must go / must stay / free classes of expiration values), orphan rows / index keys, passes on a busy connection pool, the real periodic collector with a failing pass'
 LEVEL = "exploration"
 RULE = (
-    "cases = (backend, store of 15-40 events with kinds {1, 19999, 20000, 25000, 29999, 30000} and expiration values "
+    "cases = (backend, store of 15-40 events with kinds {0, 1, 3, 4, 5, 7, 10002, 19999, 20000, 25000, 29999, 30000} and expiration values "
     "{T-1, T, T+1, far future, '5', '0', '9'*k, millisecond timestamps, '', 'abc', '-1', ' 5', '05', '1e9', JSON int, JSON "
     "float, two tags, bare tag}, then collector passes at T in {10^9-1, 10^9, now, 2^31-1} in increasing order, two of "
     "three SQL passes while other work holds pooled connections); plus the real periodic collector (own timer, 30 ms) with "
@@ -101,7 +101,7 @@ def gen_store(r):
     keys = [ref.key_from_seed("c17-%d" % i) for i in range(2)]
     evs = []
     for i in range(r.randint(15, 40)):
-        kind = r.choice([1, 1, 1, 19999, 20000, 25000, 29999, 30000, 7])
+        kind = r.choice([1, 1, 1, 19999, 20000, 25000, 29999, 30000, 7, 0, 3, 5, 10002, 4])
         tags = []
         roll = r.random()
         T = r.choice(PASSES)
